@@ -1159,7 +1159,10 @@ def decode_frame(
         raise KeyError(f"Unknown data-id: 0x{frame[2:4]} ({data_id})") from err
 
     # There are five msg_id with FLAGS - the following is not 100% correct...
-    data_value = {SZ_MSG_NAME: msg_schema.get(FLAGS, msg_schema.get(VAR))}
+    msg_name = msg_schema.get(FLAGS, msg_schema.get(VAR))
+    if isinstance(msg_name, dict):  # a copy: the payload must not alias the schema table
+        msg_name = dict(msg_name)
+    data_value = {SZ_MSG_NAME: msg_name}
 
     if msg_type in (0b000, 0b010, 0b011, 0b110, 0b111):
         # if frame[4:] != "0000":  # NOTE: this is not a hard rule, even for 0b000
